@@ -19,7 +19,7 @@ CHECKS = {
     },
     "C13": {
         "text": "Kernel-checked invariant by induction over arbitrary operation histories: adjacency symmetric and loopless, cached valence = row sum, 2*edge total = sum of valences, genus formula, refusals (loop, non-positive, unknown) leave the graph unchanged, add_edges = its accepted prefix, remove_vertex well-formed and pure; tie: generated valid/invalid histories with full cache digests after every step.",
-        "note": "Equality 'remove_vertex = induced multigraph' is tied by correspondence (renumbered digest compared); the theorem proves well-formedness of the rebuilt graph and purity.",
+        "note": "remove_vertex = induced multigraph is a theorem on the old index space (remove_vertex_is_induced); the renumbering of the survivors is the harness's bijection, compared by digest.",
     },
     "C02": {
         "text": "Kernel-checked theorems on the EWD model: the returned divisor is linearly equivalent to the input with the same degree, its sink has minimum degree, it is q-reduced (no debt off q, no legal set: Dhar burn completeness), q-reduced representatives are unique (so equivalent inputs with the same sink give identical outputs whatever orders the runs used), verdict = no debt at q. is_q_reduced: theorem that the API is constantly True + kernel-checked refutation witness (known finding K1) + the provable half. Tie: EWD / q_reduction / is_q_reduced / is_winnable on generated inputs; oracle: verified reduction w.r.t. every minimum-degree sink.",
@@ -46,8 +46,8 @@ CHECKS = {
         "note": "Hypotheses: connected well-formed graph, BFS cover, the reduction run returns.",
     },
     "C10": {
-        "text": "Kernel-checked theorems: legality test = non-empty and every member has at least its out-degree; superstable = non-negative and no legal set = Dhar burn consumes everything; comparison operators = vertex-wise order on V-q (incomparable configurations refused / unequal); parking predicate rejects wrong lengths and out-of-range values; generated lists consist of parking functions; count = closed form checked by kernel evaluation for n<=5. Tie: every subset of V-q on generated configurations; superstable count vs exact determinant; K_(n+1) vs parking functions n<=4/5; all sequences over [0..n+1]^n.",
-        "note": "PARTIAL: 'number of superstables = det of the reduced Laplacian', 'K_(n+1) superstables = shifted parking functions' and '(n+1)^(n-1)' for all n are not proved; they are decided on the explored graphs / n only (labelled as tests).",
+        "text": "Kernel-checked theorems: legality test = non-empty and every member has at least its out-degree; superstable = non-negative and no legal set = Dhar burn consumes everything; comparison operators = vertex-wise order on V-q (incomparable configurations refused / unequal); parking predicate rejects wrong lengths and out-of-range values; generated lists consist of parking functions; matrix-tree theorem in chip-firing form, for the two quantities exactly as the library computes them: #(box configurations accepted by is_superstable) = |det reduced Laplacian| on every connected multigraph (superstables <-> cokernel by existence+uniqueness of q-reduced forms; |coker|=|det| from Mathlib's Smith normal form); on K_(n+1) superstable <=> chip counts + 1 form a parking function (sorted test = counting condition); Pollak: generate_parking_functions(m) has exactly (m+1)^(m-1) entries = parking_function_count(m) for every m>=1 (via Cayley's determinant); additionally kernel evaluation for n<=5. Tie: every subset of V-q on generated configurations; superstable count vs exact determinant; K_(n+1) vs parking functions n<=4/5; all sequences over [0..n+1]^n.",
+        "note": "Nothing partial. The determinant clause is proved up to sign (natAbs); positivity of the determinant is observed by the tie. Hypotheses: well-formed connected graph.",
     },
     "C11": {
         "text": "Kernel-checked invariant by induction over arbitrary histories of set_orientation (3 states, both endpoint orders, refused calls, flag refreshes): counters = total multiplicity pointing in/out, endpoints agree, up-to-date fullness flag correct; check_fullness exact; full orientation: in+out = valence, divisor = indeg-1 of degree g-1, divisor + reverse divisor = canonical; acyclic orientation divisor unwinnable (T9). Tie: generated histories with full digests after every step.",
@@ -58,8 +58,8 @@ CHECKS = {
         "note": "Caller's divisor untouched: store fact, observed through the argument digest.",
     },
     "C15": {
-        "text": "Kernel-checked theorems at dict level: rebuilding a graph from its canonical edge list gives the same multiplicities/valences/edge total; divisor and script round trips; decimal codec round-trips every integer (Std). Tie + fault enumeration: dict/JSON/TXT round trips for all four object types with hostile names and 10^30 magnitudes; every truncation point (sampled in quick, all in thorough) and single-byte corruptions must not raise, JSON prefixes read None, returned objects well-formed.",
-        "note": "PARTIAL: JSON text layer (CPython json), TXT tokenisation (strip/split/replace), file I/O and the damaged-file clause are runtime/library behaviour: explored per generated file, not proved. Orientation round trip is tied, not proved.",
+        "text": "Kernel-checked theorems at dict level: rebuilding a graph from its canonical edge list gives the same multiplicities/valences/edge total; divisor, script and orientation round trips (orientation: any order of the written edge list restores every edge state and both counters); decimal codec round-trips every integer (Std). Tie + fault enumeration: dict/JSON/TXT round trips for all four object types with hostile names and 10^30 magnitudes; every truncation point (sampled in quick, all in thorough) and single-byte corruptions must not raise, JSON prefixes read None, returned objects well-formed.",
+        "note": "PARTIAL: JSON text layer (CPython json), TXT tokenisation (strip/split/replace), file I/O and the damaged-file clause are runtime/library behaviour: explored per generated file, not proved.",
     },
     "C16": {
         "text": "Kernel-checked theorems for the in-place family: EWD (both modes) either leaves the divisor alone (shortcuts) or replaces it by a linearly equivalent divisor of the same degree; Dhar runs likewise; cached total stays right; queries never write the graph. Pure family: the model is functional; the code's behaviour is observed through digests of every argument after every call, a share of calls repeated on the same graph object.",
